@@ -209,6 +209,18 @@ def c17_4(ctx):
     _refcheck(ctx, "MessageSigner.msg_magic_for_netcode", "ms_magic", "magic")
     _refcheck(ctx, "MessageSigner.sign_message", "ms_sign_message", "sign-pipeline")
     _refcheck(ctx, "MessageSigner.parse_sections", "ms_parse_sections", "armour-sections")
+    # the message parse_signed_message hands back is the section of the armour as parse_sections cut it: no substitution, no
+    # stripping, no case folding on the way (sign_message writes the message verbatim, so anything `undone` here was never done)
+    ps = ctx.func(MSG, "MessageSigner.parse_signed_message")
+    wps = sym.walk(ctx, ps)
+    rets_ = [e for e in wps.exits if e.kind == "return" and isinstance(e.value, ast.Tuple) and e.value.elts]
+    if not rets_:
+        ctx.undecided("parsed-message-verbatim", ctx.where(ps), "parse_signed_message returns no tuple this rule can read")
+    for e in rets_:
+        m0 = e.value.elts[0]
+        rewr = [c for c in ast.walk(m0) if isinstance(c, ast.Call) and (norm(c.func) in ("re.sub", "re.subn") or (isinstance(c.func, ast.Attribute) and c.func.attr in ("replace", "strip", "lstrip", "rstrip", "lower", "upper", "translate", "expandtabs", "sub")))]
+        ctx.check(not rewr, "parsed-message-verbatim", ctx.where(ps, e.node), "parse_signed_message returns the message as `%s`: the text is rewritten after it was cut out of the armour, so a message that happens to contain what is rewritten no longer equals the signed one (and no longer verifies)" % norm(m0)[:90],
+                  sample={"message_returned_as": norm(m0)[:80]})
     # the armour is split at "\n" (after DOS line ends were folded): str.splitlines() also breaks at \x0b \x0c \x1c-\x1e \x85
     # U+2028 U+2029 and a bare \r, which are legal inside the signed message and would come back as newlines
     n_sites = 0
